@@ -104,7 +104,7 @@ def run_shard(spec, tier, seed, budget_s):
             c03.both_origins(sh, doc, f'{seed}-{j}', 'product.ref', PARTS, fn=check, api_inline=True)
         rng = random.Random(f'{seed}-random-{i}')
         k = 0
-        target = {'quick': 120, 'thorough': 3000}[tier]
+        target = {'quick': 300, 'thorough': 4000}[tier]
         while k < target and not sh.out_of_time():
             k += 1
             size = rng.choice(['small', 'medium', 'medium'] + (['large'] if tier == 'thorough' else []))
